@@ -970,7 +970,7 @@ func main() {
 			g.mutateElements(b, r, true)
 			g.mutateRS(b, r)
 			g.mutateV(b, true)
-			g.truncations(b, true)
+			g.truncations(b, i == 0 || i == 10 || thorough) // every offset for one legacy and one typed transaction
 			g.resignedShapes(b, r)
 			g.mutateTo(b, r)
 			g.chains(b)
@@ -1029,7 +1029,8 @@ func main() {
 		entry int
 		chain int64
 	}
-	for _, e := range []ec{{0, 1}, {1, 1}, {2, 1}, {3, 1}, {0, 0}, {2, 0}, {3, 0}} {
+	// (no input this short gets as far as looking at the chain id, so one chain id per entry point)
+	for _, e := range []ec{{0, 1}, {1, 1}, {2, 0}, {3, 1}} {
 		blocks = append(blocks, fmt.Sprintf("(%d%%nat, (%d)%%Z, BLit \"\", 0%%nat, %d)", e.entry, e.chain, blockDigest(e.entry, e.chain, 0, nil, &count, &panics)))
 		blocks = append(blocks, fmt.Sprintf("(%d%%nat, (%d)%%Z, BLit \"\", 1%%nat, %d)", e.entry, e.chain, blockDigest(e.entry, e.chain, 1, nil, &count, &panics)))
 		for b := 0; b < 256; b++ {
